@@ -18,7 +18,10 @@ from props import instance_common as ic
 SPECS = ["InstanceMC", "InstanceTrace"]
 PKGS = ["./cmd/instance"]
 
-DEV_PAR = {"AliasDefaults": {"race"}, "LazyUnsync": {"race", "history"}, "NoStepMutex": {"race", "initonce"}}
+DEV_PAR = {"AliasDefaults": {"race"}, "LazyUnsync": {"race", "history"}, "NoStepMutex": {"race", "initonce"},
+           "SharedMarks": {"race", "history"}, "SharedInProgress": {"history"}}
+# kinds whose defects are steady-state (scratch state that must be per call): every goroutine repeats its calls
+STEADY = {"chain", "compat2"}
 NS = [2, 4, 8, 16]
 
 
@@ -68,8 +71,10 @@ def make_cases(ctx, scheds, thorough):
             plan = [(cks[idx % len(cks)], NS[idx % 4])]
         glob = origin == "global"
         for ck, n in plan:
+            steady = kind in STEADY
             cases.append(dict(mode="race", kind=kind, ckind=ck, origin=origin, progs=progs, n=n, seed=ctx.seed,
-                              trials=(3 if glob else (40 if thorough else 25)),
+                              iters=((1000 if thorough else 300) if steady else 1),
+                              trials=(3 if glob else ((6 if thorough else 3) if steady else (40 if thorough else 25))),
                               procs=((6 if thorough else 4) if glob else (2 if thorough else 1)),
                               targeted=targeted))
     return cases
@@ -110,7 +115,9 @@ def run(ctx):
             main["err"] = e
     tm = threading.Thread(target=do_main)
     tm.start()
-    wit = ic.deviations(ctx, "instance_dev_par.cfg", DEV_PAR)
+    wit = ic.deviations(ctx, "instance_dev_par.cfg", DEV_PAR,
+                        must_violate={"SharedMarks": ("instance_devv_par_iso.cfg", "Isolated"),
+                                      "SharedInProgress": ("instance_devv_par_iso.cfg", "Isolated")})
     tm.join()
     th.join()
     for d in (main, build):
